@@ -1,12 +1,12 @@
 SPECIFICATION Spec
 CONSTANTS
-  KPairs <- EnvKPairs
-  Warms <- W4
-  Free = 3
-  Slices <- TSlices
-  Sels <- QSels
-  Items <- NoItems
-  Ops <- ScriptOps
+  KPairs <- IndexKPairs
+  Warms <- SW4
+  Free = 1
+  Slices <- IdxSlices
+  Sels <- TAllSels
+  Items <- TItems
+  Ops <- IndexOps
 INVARIANT Shape
 INVARIANT LenIsCalls
 INVARIANT KExact
